@@ -417,6 +417,27 @@ pub fn run(ctx: &Ctx) -> i32 {
                 }
             }
             ev.count("sequences:70000-byte-keys");
+            // the same with keys of 128 KiB .. 1 MiB that are NOT the first key of their builder, differing from the key
+            // before them only near their end (what a builder keeps of the last key must be all of it)
+            for &len in [131_072usize + 40, 300_000, (1 << 20) + 5].iter() {
+                let big_a: Vec<u8> = (0..len).map(|i| b'a' + (i % 7) as u8).collect();
+                let mut big_b = big_a.clone();
+                big_b[len - 10] = b'A';
+                let mut big_c = big_a.clone();
+                big_c.push(b'!');
+                let seq: Vec<(Vec<u8>, u64)> = vec![(b"0".to_vec(), 9), (big_a.clone(), 1), (big_a.clone(), 2), (big_b.clone(), 3), (big_c.clone(), 4), (big_c.clone(), 5), (big_a.clone(), 6), (big_b.clone(), 7)];
+                for fe in FES.iter() {
+                    if let Err(p) = guard(|| stepwise(*fe, &seq, ev)) {
+                        ev.violate("builder-panic", format!("{:?} panicked: {}", fe, p), J::s(&format!("first key \"0\", then keys of {} bytes", len)));
+                    }
+                }
+                for w in 0..10 {
+                    if let Err(p) = guard(|| bulk(w, &seq, ev)) {
+                        ev.violate("builder-panic", format!("bulk front end {} panicked: {}", w, p), J::s(&format!("first key \"0\", then keys of {} bytes", len)));
+                    }
+                }
+                ev.count("sequences:non-first-keys-of-128KiB-to-1MiB");
+            }
             // from_iter / extend_iter on a lazy iterator that CLAIMS an astronomical exact length: it must stop at the
             // first rejected item with that item's error (no pre-allocation from the size hint, no panic)
             let r = guard(|| {
@@ -542,7 +563,7 @@ pub fn run(ctx: &Ctx) -> i32 {
             level: "exploration",
             rule: "one evaluation = one builder call (insert/add, or one bulk call) whose result - accept / DuplicateKey{got} / OutOfOrder{previous,got}, payloads included - is compared with a sequential model (last accepted key), bytes_written must not move on a rejected call, and the finished FST must hold exactly the accepted history; every sequence of length 2..5 is additionally replayed on ONE builder under EVERY segmentation into single inserts and bulk calls (extend_iter / extend_stream), so calls that follow a bulk call which stopped at a rejection are judged against the key that was really accepted last; sequences: ALL 55987 (thorough: 335923) call sequences of length <=6 (thorough <=7) over {\"\",a,ab,b,ba,c} x {MapBuilder, SetBuilder, raw insert-only, raw add-only} step by step, each also fed to 10 bulk front ends (extend_iter, extend_stream, from_iter, from_iter_map/set) which must stop at the first rejected item with that item's error and (extend_*) keep the items before it; a sequence of 70000-byte keys (payloads must carry the complete keys); from_iter/extend_iter on lazy iterators claiming usize::MAX items; random sequences of 10..10^4 calls with 0-50% offending calls; non-trivial = every call; distinct = (sequence, front end, call index), distinct by construction",
             assumptions: vec!["mixing add and insert on one raw builder is neither a map nor a set builder and is not judged".into()],
-            floors: vec![("calls:accepted", 1000), ("calls:rejected-duplicate", 1000), ("calls:rejected-out-of-order", 1000), ("bulk-calls:stopped-at-first-rejection", 1000), ("session-calls:bulk-stopped-at-a-rejection-and-builder-used-on", 1000), ("sequences:random-with-long-keys", 100), ("sequences:exhaustive", 55_987), ("sequences:70000-byte-keys", 1), ("bulk-calls:astronomical-size-hint", 1)],
+            floors: vec![("calls:accepted", 1000), ("calls:rejected-duplicate", 1000), ("calls:rejected-out-of-order", 1000), ("bulk-calls:stopped-at-first-rejection", 1000), ("session-calls:bulk-stopped-at-a-rejection-and-builder-used-on", 1000), ("sequences:random-with-long-keys", 100), ("sequences:exhaustive", 55_987), ("sequences:70000-byte-keys", 1), ("sequences:non-first-keys-of-128KiB-to-1MiB", 3), ("bulk-calls:astronomical-size-hint", 1)],
             exhaustive: Some(true),
         },
     )
